@@ -56,6 +56,7 @@ class C19(Check):
             "the 'same error' half is exercised. distinct = hash of (op kind, number of out-of-closure files listed by the "
             "reader, sorted fault kinds); non-trivial = at least one edited/added file lies in a directory the reader scans "
             "and is provably outside the closure")
+    RULE = RULE + "; " + 'round 8: overlay sub-scenario (two directories of one root namespace, same relative path, relative target, the other copy rewritten between reads)'
     TIERS = {"quick": {"runs": 3200, "budget_s": 50}, "thorough": {"runs": 60000, "budget_s": 1200}}
     ASSUMPTIONS = ["closure computed by the abstract namespace model from the scenario (never from pydsdl)"]
 
